@@ -589,6 +589,9 @@ func master(p *Property, tier string, n int, name func(int) string, only string,
 		"violations":  len(unlisted),
 	}
 	evdir := filepath.Join(verifDir(), "evidence")
+	if d := os.Getenv("VERIF_EVID_DIR"); d != "" {
+		evdir = d // a secondary pass of the same check (another target architecture) keeps its files apart
+	}
 	if noEvid {
 		// debugging / seeded-change runs: keep the committed evidence directory untouched
 		evdir = filepath.Join(verifDir(), ".work", "no-evidence")
